@@ -214,3 +214,12 @@ Proof.
     + intros [H1 H2] y [->|H]; auto.
     + intros H; split; [apply H; now left | intros y Hy; apply H; now right].
 Qed.
+
+(* ---------- indices of the cases a boolean test rejects (used by the generated cases files) ---------- *)
+Fixpoint find_bad_from {A} (f : A -> bool) (i : N) (l : list A) : list N :=
+  match l with
+  | [] => []
+  | x :: r => if f x then find_bad_from f (i + 1) r else i :: find_bad_from f (i + 1) r
+  end.
+Definition find_bad {A} (f : A -> bool) (l : list A) : list N := find_bad_from f 0 l.
+
